@@ -264,4 +264,20 @@ AllAnswered == \A p \in P : pc[p] \in {"held", "done"}
 (* without successors; if every such state has all callers granted and completed, then under  *)
 (* fairness every caller is eventually served (use with no cancellation and no time-outs).     *)
 TerminalAllServed == (~ENABLED Quiet) => \A p \in P : pc[p] = "done" /\ res[p] = "granted"
+
+(* -------------------------------------------------------------------- liveness under fairness *)
+(* The library's own steps are weakly fair per caller; the environment (a caller arriving, a holder *)
+(* completing, a cancellation, time passing) is not.  Checked with SPECIFICATION LiveSpec / ServeSpec *)
+(* (no emission, no state constraint: the graphs are finite because MaxTime and the one call per     *)
+(* caller bound them).                                                                               *)
+Internal(p) == PassAcqEnter(p) \/ PassAcqExit(p) \/ ChildPass(p) \/ PassRelExit(p)
+LiveSpec == Init /\ [][Quiet]_vars /\ \A p \in P : WF_vars(Internal(p))
+(* C10: a caller asleep while capacity is free is woken (or the capacity is taken) without any help *)
+WakeUp == \A p \in P : (Blocked(p) /\ held < Limit) ~> (~Blocked(p) \/ held >= Limit)
+(* C13: a cancelled sleeper returns; past the deadline nobody sleeps *)
+CancelWakes == \A p \in P : (cancelled[p] /\ Blocked(p)) ~> ~Blocked(p)
+DeadlineWakes == \A p \in P : (Kind = "deadline" /\ now >= Deadline /\ Blocked(p)) ~> ~Blocked(p)
+(* C19: if moreover every caller arrives and every holder completes, every caller is served *)
+ServeSpec == LiveSpec /\ \A p \in P : WF_vars(Start(p)) /\ WF_vars(\E o \in Outcomes : Release(p, o))
+AllServed == <>[](\A p \in P : pc[p] = "done" /\ res[p] = "granted")
 =================================================================================
